@@ -17,7 +17,11 @@ fn proj_frame(w: &World, f: &Frame) -> Value {
             json!({"t":"Init","ns": w.ns_rel(namespace.as_bytes(), &w.nsid()), "m": proj_message(w, message), "reason": ""})
         }
         Frame::Sync(m) => json!({"t":"Sync","ns":0,"m": proj_message(w, m), "reason": ""}),
-        Frame::Abort { reason } => json!({"t":"Abort","ns":0,"m":[],"reason": format!("{reason:?}")}),
+        Frame::Abort { reason } => json!({"t":"Abort","ns":0,"m":[],"reason": match reason {
+            iroh_docs::net::AbortReason::NotFound => "NotFound",
+            iroh_docs::net::AbortReason::AlreadySyncing => "AlreadySyncing",
+            iroh_docs::net::AbortReason::InternalServerError => "InternalServerError",
+        }}),
     }
 }
 
